@@ -2490,7 +2490,10 @@ impl SignedDurationRound {
             increment,
         );
 
-        let seconds = rounded / t::NANOS_PER_SECOND;
+        // We want truncating division here (and not Euclidean division)
+        // so that the seconds and nanoseconds have the same sign. Otherwise,
+        // durations less than `i64::MIN` seconds would spuriously overflow.
+        let seconds = rounded.div_ceil(t::NANOS_PER_SECOND);
         let seconds =
             t::NoUnits::try_rfrom("seconds", seconds).map_err(|_| {
                 err!(
@@ -2500,7 +2503,7 @@ impl SignedDurationRound {
                     singular = self.smallest.singular(),
                 )
             })?;
-        let subsec_nanos = rounded % t::NANOS_PER_SECOND;
+        let subsec_nanos = rounded.rem_ceil(t::NANOS_PER_SECOND);
         // OK because % 1_000_000_000 above guarantees that the result fits
         // in a i32.
         let subsec_nanos = i32::try_from(subsec_nanos).unwrap();
